@@ -55,10 +55,11 @@ def check_h(desc, acc, detour):
     attained = {Fraction(len(set(a) & set(b)), len(set(a) | set(b))) for a, b in itertools.combinations(E, 2) if set(a) & set(b)}
     for dist, ss in (("intersection", [1, 2, 3]), ("jaccard", sorted(set(JACCARD_S) | attained))):
         for s in ss:
-            for weighted in (False, True):
+            for weighted, call in ((False, "function"), (True, "function"), (False, "method"), (True, "method")):
                 acc.evaluations += 1
                 try:
-                    g, ids = P.line_graph(h, distance=dist, s=float(s) if dist == "jaccard" else s, weighted=weighted)
+                    sv = float(s) if dist == "jaccard" else s
+                    g, ids = P.line_graph(h, distance=dist, s=sv, weighted=weighted) if call == "function" else h.to_line_graph(distance=dist, s=sv, weighted=weighted)
                     ok = sorted(ids.values()) == sorted(E) and set(g.nodes()) == set(ids.keys())
                     want = {}
                     for a, b in itertools.combinations(E, 2):
@@ -75,7 +76,7 @@ def check_h(desc, acc, detour):
                             ok = all(abs(float(got[k]) - float(want[k])) < 1e-12 for k in want)
                     if not ok:
                         bad("line_graph/%s/%s" % (dist, "weights" if (set(got) == set(want) and weighted) else "structure"),
-                            "s=%s weighted=%s: ids %r edges %r; definition %r" % (s, weighted, ids, got, want))
+                            "s=%s weighted=%s (%s): ids %r edges %r; definition %r" % (s, weighted, call, ids, got, want))
                     elif want:
                         acc.nontrivial.add(hash((repr(E), dist, s, weighted)))
                     acc.outcomes.add(hash(repr(sorted(map(sorted, want)))))
